@@ -103,8 +103,8 @@ Definition first_failing (l : list (bool * N)) : N :=
   end.
 
 Definition check_doc (d : doc) (ps : list ipage) : N :=
-  if negb (forallb wf_flow (d_flow d)) then 2%N else
   let us := lin_flows (d_flow d) in
+  if negb (forallb wf_flow (d_flow d) && forallb wf_unit_b us) then 2%N else
   let n := length us in
   let rtl := d_rtl d in
   let ids := flat_map i_ids ps in
